@@ -69,6 +69,7 @@ func sendRef[T any](c chan<- T) *chanRef {
 func Send[T any](c chan<- T, v T) {
 	s := cur
 	if s == nil {
+		freeYield()
 		c <- v
 		return
 	}
@@ -82,6 +83,7 @@ func Send[T any](c chan<- T, v T) {
 func Recv[T any](c <-chan T) T {
 	s := cur
 	if s == nil {
+		freeYield()
 		return <-c
 	}
 	t := s.yield(&Op{kind: opRecv, ch: recvRef(c)})
@@ -93,6 +95,7 @@ func Recv[T any](c <-chan T) T {
 func Recv2[T any](c <-chan T) (T, bool) {
 	s := cur
 	if s == nil {
+		freeYield()
 		v, ok := <-c
 		return v, ok
 	}
